@@ -1,0 +1,110 @@
+//go:build verif
+
+package conn
+
+// Contracts for the deductive checks in /verif (read by /verif/govc; comment-only, no code).
+
+//@ import crypto github.com/tendermint/tendermint/crypto
+//@ import cipher crypto/cipher
+//@ import io io
+//@ import pool github.com/libp2p/go-buffer-pool
+
+// ---- C16: secret connection. The AEAD, the signature scheme, X25519, HKDF and the merlin transcript are ASSUMED
+// (uninterpreted); what is proved is the protocol logic around them.
+
+// Typestate of one direction of the connection:
+//   sealPending = 1 after a frame has been sealed with the current send nonce and before that nonce was incremented;
+//   lastOpenOK  = the last Open (authenticated decryption) succeeded.
+//@ ghost var sealPending int
+//@ ghost var lastOpenOK bool
+//@ ghost var opensSinceIncr int
+
+// A nonce is used for at most one Seal: sealing requires that the nonce was incremented since the previous Seal.
+//@ extern cipher.AEAD.Seal
+//@   requires freshnonce: sealPending == 0
+//@   assigns sealPending
+//@   sets sealPending = 1 when true
+//@ extern cipher.AEAD.Open
+//@   requires freshnonce: opensSinceIncr == 0
+//@   assigns lastOpenOK, opensSinceIncr
+//@   sets lastOpenOK = (result1 == nil) when true
+//@   sets opensSinceIncr = ite(result1 == nil, 1, 0) when true
+// ASSUMED about incrNonce (byte-level little-endian arithmetic on the array is outside the subset): it adds one to the
+// 64-bit counter in nonce[4:] and panics instead of wrapping. Here: it is the event that makes the nonce fresh again.
+//@ func incrNonce
+//@   trusted
+//@   assigns sealPending, opensSinceIncr
+//@   sets sealPending = 0 when true
+//@   sets opensSinceIncr = 0 when true
+//@ extern io.ReadWriteCloser.Write
+//@   assigns nothing
+//@ extern io.ReadWriteCloser.Read
+//@   assigns nothing
+//@ extern pool.Get
+//@   assigns nothing
+//@ extern pool.Put
+//@   assigns nothing
+//@ extern io.ReadFull
+//@   assigns nothing
+
+// Every frame is sealed under a nonce that was never used for a Seal before, and the nonce is advanced right after
+// sealing - also when the write to the wire then fails.
+//@ func SecretConnection.Write
+//@   requires fresh: sealPending == 0
+//@   ensures fresh: sealPending == 0
+//@   loop 1 invariant fresh: sealPending == 0
+
+// Plaintext is handed to the caller only from a frame whose authenticated decryption succeeded (or from the remainder
+// of such a frame buffered earlier); a frame that fails authentication yields an error, delivers nothing and does not
+// advance the receive nonce; a frame that passes advances it exactly once.
+//@ func SecretConnection.Read
+//@   requires fresh: opensSinceIncr == 0
+//@   ensures fresh: opensSinceIncr == 0
+//@   ensures authentic: (result1 == nil && old(len(sc.recvBuffer)) == 0) ==> lastOpenOK
+//@   ensures rejected: (old(len(sc.recvBuffer)) == 0 && !lastOpenOK) ==> (result1 != nil && result0 == 0 && len(sc.recvBuffer) == 0)
+
+// ---- handshake ----
+//@ import merlin github.com/gtank/merlin
+//@ import chacha golang.org/x/crypto/chacha20poly1305
+//@ extern merlin.NewTranscript
+//@   assigns nothing
+//@ extern merlin.Transcript.AppendMessage
+//@   assigns nothing
+//@ extern merlin.Transcript.ExtractBytes
+//@   assigns nothing
+//@ extern chacha.New
+//@   assigns nothing
+//@ extern crypto.PrivKey.PubKey
+//@   assigns nothing
+//@ extern crypto.PrivKey.Sign
+//@   assigns nothing
+//@ func genEphKeys
+//@   trusted
+//@   assigns nothing
+//@ func shareEphPubKey
+//@   trusted
+//@   assigns nothing
+//@ func computeDHSecret
+//@   trusted
+//@   assigns nothing
+//@ func deriveSecrets
+//@   trusted
+//@   assigns nothing
+//@ func shareAuthSignature
+//@   trusted
+//@   assigns nothing
+//@ func signChallenge
+//@   assigns nothing
+
+// (Package types is not a dependency of this package, so the signature predicate is declared here under its own name.)
+//@ spec func keySigned(pk crypto.PubKey, msg []byte, sig []byte) bool
+//@ extern crypto.PubKey.VerifySignature
+//@   assigns nothing
+//@   ensures det: result == keySigned(self, msg, sig)
+
+// remoteProved(pk, challenge, sig): the remote key's signature over the session challenge verified.
+// A connection is returned only if the key the remote presented signed THIS session's challenge (the 32 bytes extracted
+// from the transcript of both ephemeral keys and the shared secret), and that key - no other - becomes RemotePubKey.
+//@ func MakeSecretConnection
+//@   ensures authenticated: result1 == nil ==> (result0 != nil && result0.remPubKey == remPubKey && keySigned(remPubKey, challenge[:], remSignature))
+//@   atcall Transcript.ExtractBytes bound: true
